@@ -31,7 +31,7 @@ var c12HashExceptions = ExcTable{
 func init() {
 	register(&Property{
 		ID:          "C12",
-		Explanation: "R3: duplicate removal keeps the last of two rules that compare Equal, which is cascade-neutral only for rules whose effect does not depend on their first position; css_ast.RAtLayer.Equal and RAtImport.Equal must therefore return the constant false on every path (layer order is first-declaration order). Decides a structural necessary condition of cascade preservation, not the cascade itself: the equality used by CSS rule merging and duplicate-rule removal (css_ast.*.Equal / EqualIgnoringWhitespace, reached from DuplicateRuleRemover, mangleRules and the linker's cross-file removal) reads every semantic field of every CSS AST node type through BOTH operands (location fields excepted; derived fields listed as reviewed exceptions), pointer-typed fields are compared by content on both sides and not only against nil, and every field hashed by a node's Hash() is also compared by its Equal() (else hash-bucketed duplicate removal mis-pairs rules). If a field is missed, two rules differing only in it are 'equal' and one is deleted or merged away. R5 shared-ast-immutability: the C09/R2 frozen-AST analysis (in-place rule removal never runs on the cached stylesheet). R6 no-append-onto-borrowed: appends onto fields that hold slices borrowed from AST fields sit next to the copy-before-grow idiom. R7 tracker-reset-is-total: no zero value is stored into a single element of a shorthand tracker's state array. R8 logical-aliases-reset-trackers: each tracker has a whole-array reset control dependent on strings.HasPrefix(name, family prefix). R9 tracked-declaration-is-last-rule: at every call reporting a declaration to a shorthand tracker, a defining append of the rule list appended exactly the rule the declaration was taken from. NOT covered: selector-safety reasoning in mangleRules, shorthand collapsing, colour/calc arithmetic, nesting expansion, import order, local-name renaming.",
+		Explanation: "R3: duplicate removal keeps the last of two rules that compare Equal, which is cascade-neutral only for rules whose effect does not depend on their first position; css_ast.RAtLayer.Equal and RAtImport.Equal must therefore return the constant false on every path (layer order is first-declaration order). Decides a structural necessary condition of cascade preservation, not the cascade itself: the equality used by CSS rule merging and duplicate-rule removal (css_ast.*.Equal / EqualIgnoringWhitespace, reached from DuplicateRuleRemover, mangleRules and the linker's cross-file removal) reads every semantic field of every CSS AST node type through BOTH operands (location fields excepted; derived fields listed as reviewed exceptions), pointer-typed fields are compared by content on both sides and not only against nil, and every field hashed by a node's Hash() is also compared by its Equal() (else hash-bucketed duplicate removal mis-pairs rules). If a field is missed, two rules differing only in it are 'equal' and one is deleted or merged away. R5 shared-ast-immutability: the C09/R2 frozen-AST analysis (in-place rule removal never runs on the cached stylesheet). R6 no-append-onto-borrowed: appends onto fields that hold slices borrowed from AST fields sit next to the copy-before-grow idiom. R7 tracker-reset-is-total: no zero value is stored into a single element of a shorthand tracker's state array. R8 logical-aliases-reset-trackers: each tracker has a whole-array reset control dependent on strings.HasPrefix(name, family prefix). R9 tracked-declaration-is-last-rule: at every call reporting a declaration to a shorthand tracker, a defining append of the rule list appended exactly the rule the declaration was taken from. R10 number-mangling-splits-off-exponent: the zero-stripping loop of mangleNumber is dominated by a search for the exponent marker. R11 calc-reciprocal-only-for-plain-numbers: a calcInvert built from a numeric term is conditional on that term's unit. NOT covered: selector-safety reasoning in mangleRules, shorthand collapsing, colour/calc arithmetic, nesting expansion, import order, local-name renaming.",
 		Run: func(p *Prog, tier string) []*RuleResult {
 			return []*RuleResult{c12EqCoverage(p), c12HashSubset(p), c12NeverEqualRule(p), c12DedupeAfterWrap(p), c12NoAppendOntoBorrowed(p, "C12/R6 no-append-onto-borrowed"), c12TrackerResetTotal(p), c12LogicalAliasesReset(p), renamed(c09Frozen(p), "C12/R5 shared-ast-immutability", "in-place rule removal and merging at link time (duplicate-rule removal compacts the slice it is given) may only run on rule lists made for this link: on the cached stylesheet it deletes rules from every later build that still needs them (same analysis as C09/R2)"), c12TrackedDeclIsLast(p), c12NumberExponent(p), c12CalcReciprocalUnitless(p)}
 		},
